@@ -4,11 +4,11 @@ go 1.24.0
 
 toolchain go1.24.4
 
-require github.com/RoaringBitmap/roaring/v2 v2.0.0
-
 require (
-	github.com/bits-and-blooms/bitset v1.24.4 // indirect
-	github.com/mschoch/smat v0.2.0 // indirect
+	github.com/RoaringBitmap/roaring/v2 v2.0.0
+	github.com/bits-and-blooms/bitset v1.24.4
 )
+
+require github.com/mschoch/smat v0.2.0 // indirect
 
 replace github.com/RoaringBitmap/roaring/v2 => /repo
